@@ -303,6 +303,26 @@ def apply_event(tt_mod, objs, ev):
         if res is not A:
             raise Mismatch('identity', 'ortho*(max_rank) did not return self')
         return []
+    if op == 'IslOrthoTrunc':
+        caps = list(ev['caps'])
+        res = A.ortho(max_rank=caps[1]) if ev['asInt'] else A.ortho(max_rank=caps)
+        if res is not A:
+            raise Mismatch('identity', 'ortho(max_rank) did not return self')
+        check_trunc_error(ev, A, bounds_from_event=True)
+        return []
+    if op == 'FromArray':
+        rd, cd, r0, rN, v = expected_dense(ev['val'])
+        x = v.reshape(rd + cd)
+        if np.all(x.imag == 0):
+            x = x.real.copy()
+        kw = {}
+        if ev['thrp']:
+            kw['threshold'] = ev['thrp'] / ev['thrq']
+        if ev['maxrank']:
+            kw['max_rank'] = ev['maxrank']
+        t = TT(x.copy(), **kw)
+        check_trunc_error(ev, t, bounds_from_event=False)
+        return [t]
     if op in ('Svd', 'Pinv'):
         return svd_pinv_event(tt_mod, A, ev, objs)
     if op == 'TT2QTT':
@@ -328,6 +348,59 @@ def apply_event(tt_mod, objs, ev):
     raise KeyError(op)
 
 
+def interleaved(val):
+    """dense value -> array with axes (m1, n1, m2, n2, ...), the layout TT-SVD unfolds"""
+    rd, cd, r0, rN, v = expected_dense(val)
+    d = len(rd)
+    x = v.reshape(rd + cd)
+    return x.transpose([k // 2 + (d if k % 2 else 0) for k in range(2 * d)]), rd, cd
+
+
+def check_trunc_error(ev, t, bounds_from_event):
+    """C04: Frobenius error of a truncated result against the exact tensor carried by the event."""
+    pm = metadata_problem(t)
+    if pm:
+        raise Mismatch('metadata', pm)
+    y, rd, cd = interleaved(ev['val'])
+    d = len(rd)
+    got = contract(t.cores).reshape(rd + cd).transpose([k // 2 + (d if k % 2 else 0) for k in range(2 * d)])
+    nrm2 = float(np.sum(np.abs(y) ** 2))
+    err2 = float(np.sum(np.abs(got - y) ** 2))
+    tiny = 1e-18 * max(nrm2, 1.0)
+    if ev.get('errsq', -1) >= 0 and 'island' in ev and not ev['island']:
+        pass
+    elif ev.get('errsq', -1) >= 0:
+        # island: the error is known exactly (also with ties among the singular values)
+        if abs(err2 - ev['errsq']) > 1e-8 * max(1.0, ev['errsq'], nrm2 * 1e-6):
+            raise Mismatch('error', 'truncation error^2 %.6g differs from the exact value %d' % (err2, ev['errsq']))
+    if bounds_from_event:
+        if err2 > ev['boundsq'] * (1 + 1e-8) + tiny:
+            raise Mismatch('error', 'error^2 %.6g exceeds the quasi-optimality bound %d' % (err2, ev['boundsq']))
+        return
+    r, p, q = ev['maxrank'], ev['thrp'], ev['thrq']
+    if not r and not p:
+        return
+    sizes = [rd[k] * cd[k] for k in range(d)]
+    # singular values of the unfoldings of the exact tensor (numeric evaluator, trusted base)
+    tails = 0.0
+    for b in range(1, d):
+        s = np.linalg.svd(y.reshape(int(np.prod(sizes[:b])), -1), compute_uv=False)
+        if r:
+            tails += float(np.sum(s[r:] ** 2))
+    if r and not p:
+        if err2 > tails * (1 + 1e-8) + tiny:
+            raise Mismatch('error', 'error^2 %.6g exceeds the TT-SVD quasi-optimality bound %.6g (max_rank=%d)' % (err2, tails, r))
+    if p and not r:
+        theta = p / q
+        disc = 0
+        for b in range(1, d):
+            rows = t.ranks[b - 1] * sizes[b - 1]
+            cols = int(np.prod(sizes[b:]))
+            disc += max(0, min(rows, cols) - t.ranks[b])
+        if err2 > (theta ** 2) * nrm2 * disc * (1 + 1e-8) + tiny:
+            raise Mismatch('error', 'error^2 %.6g exceeds (threshold*norm)^2*discarded = %.6g' % (err2, theta ** 2 * nrm2 * disc))
+
+
 def unfold(val, index):
     rd, cd, r0, rN, v = expected_dense(val)
     m = int(np.prod(rd[:index]))
@@ -340,27 +413,34 @@ def svd_pinv_event(tt_mod, A, ev, objs):
     index, ow = ev['index'], ev.get('ow', False)
     M = unfold(ev['val'], index)
     scale = max(1.0, float(np.max(np.abs(M))))
-    sv = np.linalg.svd(M, compute_uv=False)
     if ev['op'] == 'Pinv':
-        thr = 10.0 ** (-ev['threxp']) if 'threxp' in ev else 0.0
+        thr = ev['thrp'] / ev['thrq'] if ev.get('thrp') else 10.0 ** (-ev['threxp'])
         p = A.pinv(index, threshold=thr, overwrite=ow)
         if not isinstance(p, TT) or any(p is o for o in objs):
             raise Mismatch('identity', 'pinv must return a new TT')
-        if True:
-            pm = metadata_problem(p)
-            if pm:
-                raise Mismatch('metadata', 'pinv: ' + pm)
-            got = contract(p.cores).reshape(M.shape)
-            exp = np.linalg.pinv(M, rcond=max(thr, 1e-13)).conj().T
-            if np.max(np.abs(got - exp)) > 1e-8 * max(1.0, float(np.max(np.abs(exp)))):
-                raise Mismatch('value', 'pinv: differs from conj-transpose of the Moore-Penrose pseudoinverse '
-                                        'of the unfolding (max abs error %.2e)' % np.max(np.abs(got - exp)))
+        pm = metadata_problem(p)
+        if pm:
+            raise Mismatch('metadata', 'pinv: ' + pm)
+        got = contract(p.cores).reshape(-1)
+        if got.size != M.size:
+            raise Mismatch('shape', 'pinv: wrong number of entries')
+        got = got.reshape(M.shape)
+        exp = np.linalg.pinv(M, rcond=thr).conj().T
+        if np.max(np.abs(got - exp)) > 1e-8 * max(1e-300, float(np.max(np.abs(exp)))):
+            raise Mismatch('value', 'pinv: differs from the conjugate transpose of the Moore-Penrose pseudoinverse '
+                                    'of the unfolding (max abs error %.2e, scale %.2e)' % (
+                                        np.max(np.abs(got - exp)), np.max(np.abs(exp))))
         return [p]
+    opt = ev.get('opt') or dict(r=0, p=0, q=1, ol=True, orr=True)
     kw = {}
-    if 'threshold' in ev:
-        kw['threshold'] = ev['threshold']
-    if 'max_rank' in ev:
-        kw['max_rank'] = ev['max_rank']
+    if opt['p']:
+        kw['threshold'] = opt['p'] / opt['q']
+    if opt['r']:
+        kw['max_rank'] = opt['r']
+    if not opt['ol']:
+        kw['ortho_l'] = False
+    if not opt['orr']:
+        kw['ortho_r'] = False
     u, s, v = A.svd(index, overwrite=ow, **kw)
     for name, f in (('u', u), ('v', v)):
         if not isinstance(f, TT):
@@ -371,17 +451,28 @@ def svd_pinv_event(tt_mod, A, ev, objs):
     s = np.asarray(s)
     if s.ndim != 1 or u.ranks[-1] != len(s) or v.ranks[0] != len(s):
         raise Mismatch('metadata', 'svd: ranks of u, s, v do not fit: %r %d %r' % (u.ranks, len(s), v.ranks))
+    if opt['r'] and len(s) > opt['r']:
+        raise Mismatch('rank', 'svd: %d singular values returned, max_rank=%d' % (len(s), opt['r']))
     if np.any(s < -1e-12) or np.any(np.diff(s) > 1e-9 * scale):
         raise Mismatch('value', 'svd: singular values are not non-negative and non-increasing: %r' % (s,))
     U = contract(u.cores).reshape(-1, len(s))
     V = contract(v.cores).reshape(len(s), -1)
-    if 'threshold' not in ev and 'max_rank' not in ev:
-        if np.max(np.abs(U @ np.diag(s) @ V - M)) > 1e-9 * scale:
-            raise Mismatch('value', 'svd: u diag(s) v differs from the tensor (max abs error %.2e)' %
-                           np.max(np.abs(U @ np.diag(s) @ V - M)))
-        k = min(len(s), len(sv))
-        if np.max(np.abs(s[:k] - sv[:k])) > 1e-9 * scale or np.any(sv[k:] > 1e-9 * scale) or np.any(s[k:] > 1e-9 * scale):
-            raise Mismatch('value', 'svd: singular values %r differ from those of the unfolding %r' % (s, sv))
+    if U.shape[0] != M.shape[0] or V.shape[1] != M.shape[1]:
+        raise Mismatch('shape', 'svd: factors have the wrong dimensions')
+    cut = ev.get('cut', False)
+    if not cut and np.max(np.abs(U @ np.diag(s) @ V - M)) > 1e-9 * scale:
+        raise Mismatch('value', 'svd: u diag(s) v differs from the tensor (max abs error %.2e)' %
+                       np.max(np.abs(U @ np.diag(s) @ V - M)))
+    sv = np.linalg.svd(M, compute_uv=False)      # singular values of the exact unfolding (numeric evaluator)
+    k = min(len(s), len(sv))
+    if not cut and (np.max(np.abs(s[:k] - sv[:k])) > 1e-9 * scale or np.any(sv[k:] > 1e-9 * scale)
+                    or np.any(s[k:] > 1e-9 * scale)):
+        raise Mismatch('value', 'svd: singular values %r differ from those of the unfolding %r' % (s, sv))
+    if ev.get('island') and not cut:
+        want = np.sqrt(np.array(ev['svsq'], dtype=float))     # planted spectrum, exact squares from the spec
+        nz = s[s > 1e-9 * scale]
+        if len(nz) != len(want) or np.max(np.abs(nz - want)) > 1e-9 * scale:
+            raise Mismatch('value', 'svd: singular values %r differ from the planted spectrum %r' % (s, want))
     if np.max(np.abs(U.conj().T @ U - np.eye(len(s)))) > 1e-9:
         raise Mismatch('isometry', 'svd: u does not have orthonormal columns')
     if np.max(np.abs(V @ V.conj().T - np.eye(len(s)))) > 1e-9:
